@@ -609,6 +609,13 @@ def _call_args(call, sig):
 #   * `x = a if c else b` == `if c: x = a else: x = b`; `if a or b: raise` == `if a: raise` `if b: raise`;
 #     `not (a == b)` == `a != b`; `if not c: A else: B` == `if c: B else: A`; `a, b = x, y` == `a = x; b = y`
 #     (fresh names only); docstrings, `pass`, logging calls and bare annotations are dropped.
+#   * a `for` whose sequence is syntactically evident is unrolled: a tuple / list literal, `zip` / `enumerate` / `reversed` of
+#     such, a dict literal (`.items()` / `.keys()` / `.values()`), or a NAME standing for one of these (a local bound once,
+#     before the loop and outside loops, to a literal of constants and never-rebound names; a module-level tuple of
+#     constants bound once and not rebound through `global`) -- `_loop_sources`
+#   * `p = partial(f, ..)` bound once and called once == the direct call with the merged arguments
+#   * helpers imported from another module of the package (`from .x import _h`, re-exports followed) are inlined like
+#     local ones when every free name of the helper means the same here (a builtin, or bound by the same import)
 # A write through an alias becomes a write to the detector chain it stands for, so it is still seen by `_touch`.
 
 def _ln(node):
